@@ -345,6 +345,13 @@ def _fam_mutual_info():
 
     _reg("mutual_info.joint_counts", lambda X, Y, nx, ny: mutual_info.joint_counts(X, Y, nx, ny),
          lambda rs, k: XY(rs, k) + (3, 2))
+    # long inputs (every static / dynamic schedule really splits 40-60 thousand frames over the threads)
+    _reg("mutual_info.joint_counts/long_single_pair", lambda X, Y: mutual_info.joint_counts(X, Y, 3, 2),
+         lambda rs, k: (rs.randint(0, 3, size=(40000 + 9000 * k, 1)), rs.randint(0, 2, size=(40000 + 9000 * k, 1))))
+    _reg("mutual_info.joint_counts/long_1d", lambda X, Y: mutual_info.joint_counts(X, Y, 3, 2),
+         lambda rs, k: (rs.randint(0, 3, size=50000 + 7000 * k), rs.randint(0, 2, size=50000 + 7000 * k)))
+    _reg("mutual_info.joint_counts/long_X_only", lambda X: mutual_info.joint_counts(X, n_x=3),
+         lambda rs, k: (rs.randint(0, 3, size=(40000 + 5000 * k, 3)),))
     _reg("mutual_info.joint_counts/X_only", lambda X: mutual_info.joint_counts(X), lambda rs, k: XY(rs, k)[:1])
     _reg("mutual_info.joint_counts/X_only_nx", lambda X: mutual_info.joint_counts(X, n_x=5), lambda rs, k: XY(rs, k)[:1])
     _reg("mutual_info.joint_counts/no_n", lambda X, Y: mutual_info.joint_counts(X, Y), lambda rs, k: XY(rs, k))
@@ -453,6 +460,10 @@ def _fam_mutual_info():
     _reg("libinfo.matrix_bincount2d", lambda a, b, na, nb: libinfo.matrix_bincount2d(a, b, na, nb),
          lambda rs, k: ab2(rs, k, np.int32))
     _reg("libinfo.bincount2d", lambda a, b, na, nb: libinfo.bincount2d(a, b, na, nb), lambda rs, k: ab1(rs, k, np.int64))
+    _reg("libinfo.bincount2d/long", lambda a, b, na, nb: libinfo.bincount2d(a, b, na, nb),
+         lambda rs, k: (rs.randint(0, 3, size=60000 + 4000 * k).astype(np.int64), rs.randint(0, 4, size=60000 + 4000 * k).astype(np.int64), 3, 4))
+    _reg("libinfo.matrix_bincount2d/long", lambda a, b, na, nb: libinfo.matrix_bincount2d(a, b, na, nb),
+         lambda rs, k: (rs.randint(0, 3, size=(40000 + 3000 * k, 2)).astype(np.int32), rs.randint(0, 4, size=(40000 + 3000 * k, 3)).astype(np.int32), 3, 4))
     for dt in ("int8", "int16", "int64", "uint8", "uint16", "uint32", "uint64"):
         _reg("libinfo.matrix_bincount2d/" + dt, lambda a, b, na, nb: libinfo.matrix_bincount2d(a, b, na, nb),
              (lambda dt: lambda rs, k: ab2(rs, k, dt))(np.dtype(dt)))
@@ -988,6 +999,9 @@ def _fam_libdist():
              lambda rs, k: (lambda X, yy: (X, yy[::2]))(rs.rand(8, 3).astype(np.float32), rs.rand(6).astype(np.float32)))
         _reg("libdist.%s/transposed_int64" % kn, call,
              lambda rs, k: (lambda X: (X.T, X.T[3].copy()))(rs.randint(-5, 6, size=(3, 9))))
+        _reg("libdist.%s/long" % kn, call, lambda rs, k: Xy(rs, k, np.float64, 50000 + 3000 * k))
+        _reg("libdist.%s/long_single_row_wide" % kn, call,
+             lambda rs, k: (lambda X: (X, X[0] * 0.5))(rs.rand(1 + k, 200000)))
         # out= is documented to receive the distances: only `out` (position 2) may change
         callo = (lambda f: lambda X, y, out: (f(X, y, out=out), out))(f)
         _reg("libdist.%s/out" % kn, callo, lambda rs, k: Xy(rs, k, np.float64) + (np.full(9, 7.0),), writes=(2,))
